@@ -21,6 +21,7 @@ type defaultVarMocker struct {
 	targetValue reflect.Value
 	mockValue   interface{}
 	originValue interface{}
+	originSaved bool // originSaved 是否已保存原值(仅首次 mock 时保存)
 	canceled    bool // canceled 是否被取消
 }
 
@@ -80,7 +81,10 @@ func (m *defaultVarMocker) Set(value interface{}) {
 }
 
 func (m *defaultVarMocker) doSet(value interface{}) {
-	m.originValue = m.targetValue.Elem().Interface()
+	if !m.originSaved {
+		m.originValue = m.targetValue.Elem().Interface()
+		m.originSaved = true
+	}
 	d := reflect.ValueOf(value)
 	m.targetValue.Elem().Set(d)
 	m.mockValue = value
